@@ -17,12 +17,18 @@ use x86_64::{PhysAddr, VirtAddr};
 
 const SEP: i128 = -3;
 const FAULT: i128 = -20;
+const LINKED_AT_FREE: i128 = -21;
+const BAD_REC_ADDR: i128 = -22;
 
 pub struct Alloc {
     pub list: Vec<i64>,
     pub next: usize,
     pub calls: u64,
     pub freed: Vec<u64>,
+    pub root: u64,
+    /// frames that were handed to the deallocator while an entry of a page table of the
+    /// hierarchy (the level-4 table or a frame obtained from this allocator) still pointed to them
+    pub linked_at_free: Vec<u64>,
 }
 unsafe impl FrameAllocator<Size4KiB> for Alloc {
     fn allocate_frame(&mut self) -> Option<PhysFrame<Size4KiB>> {
@@ -37,7 +43,20 @@ unsafe impl FrameAllocator<Size4KiB> for Alloc {
 }
 impl FrameDeallocator<Size4KiB> for Alloc {
     unsafe fn deallocate_frame(&mut self, frame: PhysFrame<Size4KiB>) {
-        self.freed.push(frame.start_address().as_u64());
+        let f = frame.start_address().as_u64();
+        let mut tabs: Vec<u64> = vec![self.root];
+        tabs.extend(self.list[..self.next.min(self.list.len())].iter().filter(|x| **x >= 0).map(|x| *x as u64 & !0xfff));
+        'scan: for t in tabs {
+            if t == f { continue; }
+            for i in 0..512u64 {
+                let w = physmem::read(t + 8 * i);
+                if w & 1 == 1 && w & 0x000f_ffff_ffff_f000 == f {
+                    self.linked_at_free.push(f);
+                    break 'scan;
+                }
+            }
+        }
+        self.freed.push(f);
     }
 }
 
@@ -174,7 +193,30 @@ where
         physmem::MMU_ENABLED.store(rec, Ordering::SeqCst);
         let r = catch(AssertUnwindSafe(|| do_op(m, a, root, frames, op)));
         physmem::MMU_ENABLED.store(false, Ordering::SeqCst);
-        physmem::drop_aliases();
+        let mmu_log = physmem::drop_aliases();
+        // C20, behaviourally: every virtual address the recursive mapper dereferenced during a call on
+        // page P must be the recursive address of P's level-3, level-2 or level-1 table
+        // (r,r,r,p4 / r,r,p4,p3 / r,p4,p3,p2, sign-extended), computed here from the index digits
+        let mut bad_recursive_address = false;
+        if rec {
+            let ri = physmem::REC_INDEX.load(Ordering::SeqCst);
+            let compose = |a: u64, b: u64, c: u64, d: u64| -> u64 {
+                let v = (a << 39) | (b << 30) | (c << 21) | (d << 12);
+                if a >= 256 { v | 0xffff_0000_0000_0000 } else { v }
+            };
+            let page_arg: Option<u64> = match op[0] { 1 | 2 | 3 | 4 | 5 | 7 => Some(op[2]), 6 => Some(op[3]), 8 | 9 => Some(op[1]), _ => None };
+            for (va, _frame) in &mmu_log {
+                let ok = match page_arg {
+                    Some(p) => {
+                        let (p4, p3, p2) = ((p >> 39) & 511, (p >> 30) & 511, (p >> 21) & 511);
+                        *va == compose(ri, ri, ri, p4) || *va == compose(ri, ri, p4, p3) || *va == compose(ri, p4, p3, p2)
+                    }
+                    // clean-up visits the tables of many pages: the address must at least lie in the recursive region
+                    None => (*va >> 39) & 511 == ri,
+                };
+                if !ok { bad_recursive_address = true; }
+            }
+        }
         match r {
             None => {
                 out.push(PANIC);
@@ -182,11 +224,11 @@ where
             }
             Some(v) => {
                 let faulted = physmem::FAULTED.load(Ordering::SeqCst);
-                if faulted { out.push(FAULT); } else { out.extend(v); }
+                if faulted { out.push(FAULT); } else if bad_recursive_address { out.push(BAD_REC_ADDR); } else if !a.linked_at_free.is_empty() { out.push(LINKED_AT_FREE); } else { out.extend(v); }
                 out.push(a.calls as i128);
                 out.push(a.freed.len() as i128);
                 out.push(SEP);
-                if faulted {
+                if faulted || bad_recursive_address || !a.linked_at_free.is_empty() {
                     return out;
                 }
             }
@@ -216,7 +258,7 @@ fn run_inner(c: &[u64]) -> Vec<i128> {
         physmem::fill_background(*f);
     }
     physmem::zero_frame(root);
-    let mut a = Alloc { list: allocs, next: 0, calls: 0, freed: vec![] };
+    let mut a = Alloc { list: allocs, next: 0, calls: 0, freed: vec![], root, linked_at_free: vec![] };
     let p4: &mut PageTable = unsafe { &mut *(physmem::host(root) as *mut PageTable) };
     match kind {
         0 => {
@@ -230,6 +272,7 @@ fn run_inner(c: &[u64]) -> Vec<i128> {
         _ => {
             // the recursive slot: entry r of the root points to the root
             physmem::write(root + 8 * r, root | 3);
+            physmem::REC_INDEX.store(r, Ordering::SeqCst);
             let mut m = unsafe { RecursivePageTable::new_unchecked(p4, PageTableIndex::new(r as u16)) };
             run_history(&mut m, &mut a, root, &frames, ops, true)
         }
